@@ -30,6 +30,36 @@ CLAIMED = {
     note="Trusted: Lean kernel + standard axioms; hand-written Model/Settings; target-spec and filterset truth are inputs from fixed tables; the config crate's layering is modelled, not verified; force_retries is exercised end-to-end only.",
     technique="Lean 4 proof (induction over file and override lists) + differential correspondence",
     design="§5 C06"),
+ "C01": dict(
+    text="Lean 4 theorems: exit status = 0 iff (no failed/outstanding setup script, no failed test, every expected test finished, non-empty run or tolerant --no-tests policy) (exit_zero_iff), priority of 105/100/4 (exit_codes), the deciding counters are exactly the history of Finished/SetupScriptFinished events under EVERY event order (run_counts, exit_zero_iff_history), flaky/leaky passes count as passes, and the exit table equals the one regenerated from exec_run/process_exit_code/NextestExitCode (exit_table_matches_source). Tied to the code by the dispatcher stepping hook (real DispatcherContext + RunStats::summarize_final) against the model and an independent history-based oracle.",
+    note="Trusted: Lean kernel + standard axioms; Model/Dispatcher; tools/extract.py for the regenerated table. The real process exit status of real runs (signals, spawn failures, reporter errors) is not exercised by this check yet (end-to-end engine pending): PARTIAL on that side.",
+    technique="Lean 4 proof (case analysis, induction over event lists, decide on regenerated tables) + differential correspondence through a stepping hook",
+    design="§5 C01"),
+ "C02": dict(
+    text="Lean 4 theorems: the dispatcher never reports a test finished (or retried) unless it is registered, never acknowledges a start for a registered test, unregisters on finish (finished_requires_started, no_double_start, finished_unregisters); and a machine-checked counterexample showing that an un-cancelled run can end with a selected test never created (uncancelled_complete_counterexample, defect F7 in future-queue). Tied to the code by the dispatcher stepping hook and by driving the real future_queue_grouped by hand.",
+    note="PARTIAL: 'each test's future is created once from the priority queue', attempt numbering and one-process-per-attempt are executor properties not yet covered by a model theorem or an end-to-end monitor; the full statement is false of the current code (known finding F7); the partial theorem under per-group uniform weights is not yet proved.",
+    technique="Lean 4 proof + counterexample by kernel evaluation + differential correspondence",
+    design="§5 C02"),
+ "C08": dict(
+    text="Lean 4 theorems on the scheduler model for EVERY item list, weight/group assignment and completion order: the accounted global weight equals the sum over alive futures of min(threads-required, test-threads) and never exceeds test-threads (global_weight_step, global_weight_inv); with test-threads = 1 at most one test runs (no_capture_serial). Tied to the code by driving the real future_queue_grouped with futures that complete on command and comparing start order, slots and current_global_weight, plus monitors recomputing global and per-group sums.",
+    note="PARTIAL: the per-group weight invariant and the priority-queue order (descending priority, stable) are checked by monitors/correspondence only so far, not yet as theorems; threads-required resolution against -j (imp.rs wiring) and real process lifetimes are end-to-end only.",
+    technique="Lean 4 proof (invariant by induction over operations) + differential correspondence against the real future-queue crate",
+    design="§5 C08"),
+ "C10": dict(
+    text="Lean 4 theorems about the dispatcher model for EVERY state and event, hence every order of start requests, results, retries, script results, signals and reporter errors: cancellation severity never decreases (cancel_monotone), nothing starts after cancellation begins (no_start_after_cancel, run_no_start_after_cancel), a cancellation notice is announced only when it strictly escalates and hence at most once (announce_only_on_escalation, run_announcements_escalate), test-failure cancellation begins exactly when the failure limit is reached and never under no-fail-fast (maxfail_exact, below_limit_step, no_fail_fast_never_cancels), failing setup scripts always cancel, non-signal causes only broadcast OtherCancel; severity order = CancelReason's declaration order regenerated from the source. Tied to the code by the stepping hook on the real DispatcherContext.",
+    note="Trusted: Lean kernel + standard axioms; Model/Dispatcher; the hook repeats run()'s response→broadcast mapping. PARTIAL: 'running tests are left to finish' and 'the run ends without sitting out retry delays' are executor-side (known defect F5 candidate) and need the end-to-end engine.",
+    technique="Lean 4 proof (case analysis over all events, induction over runs) + differential correspondence through a stepping hook",
+    design="§5 C10"),
+ "C14": dict(
+    text="Lean 4 theorems about the slot allocator against the set of held slots: a reserved slot is not held by any alive future, is the smallest such number, and the invariant (held distinct, held/free partition [0,next)) is preserved by reserve and release (reserve_is_least_free, release_keeps_invariant, held_slots_distinct). Tied to the code by recording global_slot()/group_slot() of every future created by the real future_queue_grouped and re-deriving least-free / uniqueness / bounds from the history.",
+    note="PARTIAL: the lifting from the allocator to the whole scheduler state (held = slots of running futures) and the bound slot < limit are checked by monitors only; stability across retries and the NEXTEST_TEST_* environment values are end-to-end only.",
+    technique="Lean 4 proof (data-structure invariant) + differential correspondence + monitors",
+    design="§5 C14"),
+ "C17": dict(
+    text="Lean 4 theorems: passed + failed + exec-failed + timed-out = finished with flaky, leaky and slow as sub-counts, and the script analogue, on every state reachable under every event order (counter_partition_step, counter_partition); every TestFinished event carries the run's statistics of that moment and the test's complete attempt list (finished_event_carries_stats). Tied to the code by the dispatcher stepping hook.",
+    note="PARTIAL: the JUnit aggregator (one testcase per finished test, reruns, stored output, XML validity; candidate defect F8) and the human summary line are not yet modelled or checked.",
+    technique="Lean 4 proof (invariant) + differential correspondence through a stepping hook",
+    design="§5 C17"),
 }
 NOT_YET = "not yet claimed: model/theorems for this property are still being built (see DESIGN.md §5); no other technique is substituted"
 
